@@ -2,16 +2,24 @@ use syn::{spanned::Spanned, Expr, Lit, Meta, MetaNameValue, UnOp};
 
 use super::path::{path_to_string, ungroup};
 
+/// An integer given as a string: what `str::parse` reads, or what the literal form reads (`"0x10"`,
+/// `"1_000"`).
+#[inline]
+fn lit_str_2_isize(lit: &syn::LitStr) -> syn::Result<isize> {
+    match lit.value().parse::<isize>() {
+        Ok(i) => Ok(i),
+        Err(error) => match lit.parse::<syn::LitInt>() {
+            Ok(int) => int.base10_parse(),
+            Err(_) => Err(syn::Error::new(lit.span(), error)),
+        },
+    }
+}
+
 #[inline]
 pub(crate) fn meta_name_value_2_isize(name_value: &MetaNameValue) -> syn::Result<isize> {
     match ungroup(&name_value.value) {
         Expr::Lit(lit) => match &lit.lit {
-            Lit::Str(lit) => {
-                return lit
-                    .value()
-                    .parse::<isize>()
-                    .map_err(|error| syn::Error::new(lit.span(), error))
-            },
+            Lit::Str(lit) => return lit_str_2_isize(lit),
             Lit::Int(lit) => return lit.base10_parse(),
             _ => (),
         },
@@ -45,9 +53,7 @@ pub(crate) fn meta_2_isize(meta: &Meta) -> syn::Result<isize> {
             let lit = list.parse_args::<Lit>()?;
 
             match &lit {
-                Lit::Str(lit) => {
-                    lit.value().parse::<isize>().map_err(|error| syn::Error::new(lit.span(), error))
-                },
+                Lit::Str(lit) => lit_str_2_isize(lit),
                 Lit::Int(lit) => lit.base10_parse(),
                 _ => Err(syn::Error::new(lit.span(), "not an integer")),
             }
